@@ -606,6 +606,7 @@ def rule_changes_forwarded(repo, chk, rule):
     chk.expect(bool(upd) and w is None, rule, "update_model_for_controls hands every reported change to the model updater", _loc(rel, loop),
                "a change that is skipped (isolated element, unknown attribute ...) is lost: the reference point is reset afterwards, so the updater never hears of it",
                expected="every way round the loop over get_changes() calls <updater>.update(m, wn, obj, attr)", found=("path avoiding the update: " + g.path_text(w)) if w else ("no update call" if not upd else None))
+    updater_dispatch_rules(repo, chk, rule)
     rst = g.calling("reset_reference_point")
     in_loop = [i for i in rst if any(g.g.nodes[i]["node"] is x or g.g.nodes[i].get("stmt") is x for x in _walk(loop))]
     chk.expect(bool(rst) and not in_loop, rule, "the 'model' reference point is reset after all changes were forwarded", _loc(rel, fn), found="reset inside the loop" if in_loop else ("no reset" if not rst else None))
@@ -718,3 +719,55 @@ def adjacency_history_rules(repo, chk, rule):
     except Unsupported as e:
         raise ExtractError("%s: %s" % (rule, e))
     chk.floor(rule, 9)
+
+
+def updater_dispatch_rules(repo, chk, rule):
+    """T3 (finite): wntr/sim/models/utils.py ModelUpdater interpreted -- an updater built by its own constructor, callbacks registered with add() for several
+    (object, attribute) keys, update() called for every key and for a key nothing is registered for, with the object connected and with the object isolated.
+    update(m, wn, obj, attr) must call exactly the callbacks registered for (obj, attr), once each, in registration order, with (m, wn, updater, obj, attr) --
+    WHATEVER the state of the object: the parameters that only the updater refreshes (per-junction PDD pressures and exponent, leak area / coefficient, valve
+    settings, roughness) are registered on their own attribute, not on `_is_isolated`, so a change dropped while the element is isolated is never replayed."""
+    from ..concrete import World, stdlib_overrides, Instance, ProgramError, Unsupported
+    from ..src import loc, ExtractError
+    rel = "wntr/sim/models/utils.py"
+    ufn = repo.func(rel, "ModelUpdater.update")
+    chk.fn(ufn)
+    from .c13 import model_world
+    world = model_world(repo)           # provides the collections.abc mix-ins the repository's OrderedSet builds on
+    I = world.interp
+
+    class _Elem(object):
+        _sa_mock = True
+
+        def __init__(self, name, isolated):
+            self.name, self._is_isolated = name, isolated
+
+        def __repr__(self):
+            return "<%s%s>" % (self.name, " (isolated)" if self._is_isolated else "")
+    try:
+        for isolated in (False, True):
+            up = world.function(rel, "ModelUpdater")()
+            a, b = _Elem("A", isolated), _Elem("B", False)
+            calls = []
+
+            def cb(tag):
+                def f(m, wn, updater, obj, attr):
+                    calls.append((tag, m, wn, updater is up, obj, attr))
+                return f
+            f1, f2, f3, f4 = cb("f1"), cb("f2"), cb("f3"), cb("f4")
+            reg = [(a, "minimum_pressure", f1), (a, "minimum_pressure", f2), (a, "_is_isolated", f3), (b, "minimum_pressure", f4), (a, "setting", f1), (a, "minimum_pressure", f1)]
+            for o_, at_, f_ in reg:
+                I.call(I.getattr_(up, "add"), [o_, at_, f_], {})
+            for o_, at_, want in ((a, "minimum_pressure", ["f1", "f2"]), (a, "_is_isolated", ["f3"]), (a, "setting", ["f1"]), (b, "minimum_pressure", ["f4"]), (a, "roughness", []), (b, "setting", [])):
+                del calls[:]
+                I.call(I.getattr_(up, "update"), ["M", "WN", o_, at_], {})
+                got = [c[0] for c in calls]
+                args_ok = all(c[1] == "M" and c[2] == "WN" and c[3] and c[4] is o_ and c[5] == at_ for c in calls)
+                chk.expect(got == want and args_ok, rule, "ModelUpdater.update(%r, %r) calls exactly the callbacks registered for that key, once each, in order" % (o_, at_), loc(ufn),
+                           "the per-element parameters are refreshed only through these callbacks; a change that is not dispatched (because of the element's state, or of the attribute) "
+                           "is lost when the reference point of the change tracker is reset", expected=want, found="%s%s" % (got, "" if args_ok else " with other arguments"))
+    except ProgramError as e:
+        chk.bad(rule, "ModelUpdater dispatches the registered callbacks", loc(ufn), found="%s (line %s)" % (e, e.lineno))
+    except Unsupported as e:
+        import traceback
+        raise ExtractError("%s (ModelUpdater): %s" % (rule, e))
